@@ -81,7 +81,13 @@ fn vm_specs() -> Vec<PropSpec> {
     let mk = |id: &'static str, rule: &'static str| PropSpec {
         min_nontrivial: 1000,
         id,
-        legs: vec![vm_leg(id, 400_000, 20_000_000)],
+        legs: match id {
+            "C01" => vec![vm_leg(id, 600_000, 20_000_000)],
+            "C06" => vec![vm_leg(id, 1_500_000, 40_000_000)],
+            "C16" => vec![vm_leg(id, 1_200_000, 30_000_000)],
+            "C15" => vec![vm_leg(id, 2_000_000, 60_000_000), timers_leg("C15", 1_000_000, 30_000_000)],
+            _ => vec![vm_leg(id, 3_000_000, 80_000_000)],
+        },
         rule,
         assumptions: A_VM.to_vec(),
     };
@@ -92,7 +98,7 @@ fn vm_specs() -> Vec<PropSpec> {
         mk("C04", "programs weighted towards owned()/anon()/slab/clone/drop of owning and non-owning references held in locals, global registers, queued closures and actor state; non-trivial = an owner dropped while another owner of the same actor exists, or a parent with grandchildren terminated, or a slab with >= 2 children and >= 1 termination; distinct = distinct byte strings"),
         mk("C05", "programs weighted towards Ret::new / ret_some_do! / ret_to! / ret_some_to! / prep-style Rets moved into closures, messages, timers and actor state, answered or abandoned; non-trivial = a Ret abandoned outside run/inside Stakker drop, or inside a discarded call, or in calls held by a terminating Prep actor; distinct = distinct byte strings"),
         mk("C06", "programs weighted towards lazy!/idle!/defer items submitting each other with arbitrary run(now, idle) sequences; non-trivial = a lazy item deferred main-queue work and a run with idle=true executed an idle item while more idle items waited; distinct = distinct byte strings"),
-        mk("C15", "programs weighted towards run() instants that increase, repeat, go backwards and jump; non-trivial = a non-advancing run with work queued and an idle item executed in a run that advanced time; distinct = distinct byte strings"),
+        mk("C15", "programs weighted towards run() instants that increase, repeat, go backwards and jump; non-trivial = a non-advancing run with work queued and an idle item executed in a run that advanced time (vm leg), or a non-advancing run while a timer was already due (timer leg: no callback may run then); distinct = distinct byte strings"),
         mk("C16", "programs with clone/drop storms on Actor/ActorOwn/Fwd/Deferrer and moves of Ret, checked by the item/message/handle registries and the per-case allocation-balance oracle (live heap allocations before == after, confirmed by re-execution); non-trivial = (main queue grown beyond 2 KiB or recreated) with >= 20 clone/drop operations, or an actor freed by its last weak reference after termination; distinct = distinct byte strings"),
     ]
 }
@@ -236,7 +242,7 @@ pub fn run_findings(prop: &str) -> (Vec<String>, Vec<(String, String)>, usize) {
         let text = String::from_utf8_lossy(&out.stdout).to_string();
         let violates = out.status.code() == Some(1) || out.status.code().is_none();
         let status = e["status"].as_str().unwrap_or("");
-        let rule = e["rule"].as_str().unwrap_or("");
+        let rule = e["rules"][prop].as_str().or(e["rule"].as_str()).unwrap_or("");
         if status == "fixed" {
             if violates {
                 viol.push((
